@@ -135,11 +135,94 @@ def run_daemon_start(kind):
         s.cleanup()
 
 
+def run_unreadable():
+    """an unprivileged user starts a master on a pid file it cannot read (mode 000, owned by root) that names a live
+    process, in a directory it may write to: the file must keep naming its owner"""
+    import shutil
+    import sys
+    import tempfile
+    d = tempfile.mkdtemp(prefix="c17u_", dir=rp._scratch())
+    try:
+        os.chmod(d, 0o777)
+        for up in (os.path.dirname(d), os.path.dirname(os.path.dirname(d))):
+            try:
+                os.chmod(up, os.stat(up).st_mode | 0o055)
+            except OSError:
+                pass
+        path = os.path.join(d, "g.pid")
+        owner = os.getpid()                      # a live process the unprivileged user may not signal
+        with open(path, "w") as f:
+            f.write("%d\n" % owner)
+        os.chmod(path, 0)
+        code = ("import os, sys\nsys.path.insert(0, %r)\nimport gunicorn.pidfile as gp\nos.setgroups([])\nos.setgid(65534)\nos.setuid(65534)\n"
+                "try:\n    gp.Pidfile(%r).create(os.getpid())\n    print('created')\nexcept BaseException as e:\n    print('refused', type(e).__name__)\n"
+                % (os.environ.get("VERIF_REPO", "/repo"), path))
+        p = subprocess.run([sys.executable, "-B", "-c", code], capture_output=True, text=True, timeout=30)
+        try:
+            with open(path) as f:
+                txt = f.read()
+            exists = True
+        except OSError:
+            txt, exists = "", False
+        ev = [{"e": "chk", "after": "unprivileged-create-on-unreadable-file", "master_alive": True, "exists": exists,
+               "names_master": txt.strip() == str(owner)}]
+        return {"wk": "unreadable", "ev": ev}, {"wk": "unreadable", "child": (p.stdout + p.stderr)[-300:], "log": ""}
+    finally:
+        shutil.rmtree(d, ignore_errors=True)
+
+
+def run_hup_foreign_path(wk):
+    """two masters X and Y with pid files of their own; X's configuration file is edited to name Y's pid file and X
+    is sent HUP: Y's file must keep naming Y"""
+    x = rp.Server(wk, workers=1, threads=2 if wk == "gthread" else None, args=["--graceful-timeout", "2"], name="c17x")
+    y = rp.Server(wk, workers=1, threads=2 if wk == "gthread" else None, pidfile=True, args=["--graceful-timeout", "2"], name="c17y")
+    ev = []
+    try:
+        xpid = os.path.join(x.dir, "x.pid")
+        x.rewrite_config("pidfile = %r\n" % xpid)
+        x.start()
+        y.start()
+        x.wait_booted(1)
+        y.wait_booted(1)
+
+        def chk(after):
+            alive = rp.proc_state(y.pid) not in (None, "Z")
+            try:
+                with open(y.pidfile) as f:
+                    txt = f.read()
+                exists = True
+            except OSError:
+                txt, exists = "", False
+            ev.append({"e": "chk", "after": after, "master_alive": bool(alive), "exists": exists, "names_master": txt.strip() == str(y.pid)})
+        chk("two-masters")
+        x.rewrite_config("pidfile = %r\n" % y.pidfile)
+        x.signal(signal.SIGHUP)
+        time.sleep(2.5)
+        chk("hup-to-foreign-path")
+        if rp.proc_state(x.pid) not in (None, "Z"):
+            x.signal(signal.SIGTERM)
+            x.wait_exit(8)
+        chk("hup-to-foreign-path,other-master-stopped")
+        return {"wk": wk, "ev": ev}, {"wk": "hup-foreign-" + wk, "log": x.errlog()[-300:]}
+    finally:
+        x.cleanup()
+        y.cleanup()
+
+
 def real_side(ctx):
     from props.reload_real import _parallel
     plan = ["sync", "gthread"] if ctx.quick else ["sync", "gthread", "gevent", "eventlet"]
-    plan += ["@good", "@bad-class"]
-    results = _parallel(plan, lambda a, i: run_daemon_start(a[1:]) if a.startswith("@") else run_real(a), par=6)
+    plan += ["@good", "@bad-class", "!hup:sync"] + ([] if ctx.quick else ["!hup:gthread"]) + (["!unreadable"] if os.geteuid() == 0 else [])
+
+    def run(a, i):
+        if a.startswith("@"):
+            return run_daemon_start(a[1:])
+        if a == "!unreadable":
+            return run_unreadable()
+        if a.startswith("!hup:"):
+            return run_hup_foreign_path(a[5:])
+        return run_real(a)
+    results = _parallel(plan, run, par=8)
     traces = [r[0] for r in results]
     metas = [r[1] for r in results]
     verdicts, stats = tlc.validate_batch("PidfileRealTrace", "PidfileRealTrace.cfg", traces, name="PidfileRealTrace_C17")
